@@ -3,7 +3,9 @@ C19 — oracle entry: the harness scripts played on the Limiter machine (`C19Lim
 
 Header `@ C19 lim <limit>`; ops (one harness action each; the harness has ONE
 submitting goroutine that performs the queued `Go` calls in order):
-  go <id> ok | go <id> panic <v>   submit task <id> (= number of tasks submitted so far)
+  go <id> <ending>                 submit task <id> (= number of tasks submitted so far); <ending> = how the
+                                   function will end (`parseOutcome?`): ok | selfrec | panic <v> | repanic <v> |
+                                   defpanic <v> | pnil | goexit | pgoexit <v>
   release <id>                     let running task <id> leave its function
   wait                             call Wait() in a new goroutine
   k                                number of tokens in the channel at quiescence
@@ -81,9 +83,24 @@ def decVal (v : Int) : String :=
   else if v % 4 = 2 then "cus:" ++ toString (v / 4)
   else "?" ++ toString v
 
+/-- The scripted ways a submitted function ends, mapped to what `recover()` will see:
+`ok` returns; `selfrec` panics and recovers by itself in a deferred function of its own, then
+returns normally (nothing reaches `Recover`); `panic v`; `repanic v` panics, a deferred function
+of its own recovers that and panics anew with `v`; `defpanic v` panics, and while that panic is
+in flight a deferred function of its own panics with `v` (`recover()` reports the LAST panic);
+`pnil` executes `panic(nil)` while the process runs with `GODEBUG=panicnil=1` (`recover()`
+returns nil; under the Go ≥ 1.21 default the same statement is `panic nil`, whose value is a
+`*runtime.PanicNilError`); `goexit` calls `runtime.Goexit()`; `pgoexit v` panics with `v` and a
+deferred function of its own calls `runtime.Goexit()`, which aborts the panic. -/
 def parseOutcome? : List String → Option Outcome
   | ["ok"] => some .ok
+  | ["selfrec"] => some .ok
   | ["panic", v] => Outcome.panic <$> encVal? v
+  | ["repanic", v] => Outcome.panic <$> encVal? v
+  | ["defpanic", v] => Outcome.panic <$> encVal? v
+  | ["pnil"] => some .panicNil
+  | ["goexit"] => some .goexit
+  | ["pgoexit", v] => (fun _ => Outcome.goexit) <$> encVal? v
   | _ => none
 
 /-- Handler events name the handler that received the value when it is not handler 0
@@ -185,8 +202,8 @@ def settle (s : St) : St :=
   (List.range s.tasks.length).foldl (fun s i =>
     match s.tasks[i]? with
     | some t =>
-      match t.pc, t.outcome with
-      | .recovering, .ok => (advN s i 3).getD s
+      match t.pc, t.outcome.recovered with
+      | .recovering, none => (advN s i 3).getD s
       | .cleanup, _ => (advN s i 2).getD s
       | .wgDone, _ => (advN s i 1).getD s
       | _, _ => s
@@ -230,12 +247,16 @@ def acceptAll : St → List String → List String
     | none => "not-enabled" :: acceptAll s rest
 
 /-! ### `Recover` used directly
-Header `@ C19 rec`; op `rec <fn> <cleanup>…` with `<fn>`, `<cleanup>` ∈ `ok` | `p:<value token>`;
+Header `@ C19 rec`; op `rec <fn> <cleanup>…` with `<fn>`, `<cleanup>` ∈ `ok` | `p:<value token>` |
+`pnil1` (`panic(nil)` under `GODEBUG=panicnil=1`) | `goexit`;
 answer: `handled=[…] ran=[…]` (handler calls in order: `v:<token>` or `c:<token>@<index>`;
-indices of the cleanups that were called). -/
+indices of the cleanups that were called), followed by ` goexit` when `Recover` did not return
+to its caller because the goroutine was ended by `runtime.Goexit()`. -/
 
 def parseRecTok? (s : String) : Option Outcome :=
   if s = "ok" then some .ok
+  else if s = "pnil1" then some .panicNil
+  else if s = "goexit" then some .goexit
   else match s.splitOn ":" with
     | "p" :: rest => Outcome.panic <$> encVal? (":".intercalate rest)
     | _ => none
@@ -250,7 +271,8 @@ def recOp (ts : List String) : String :=
     match parseRecTok? fn, cl.mapM parseRecTok? with
     | some fn, some cl =>
       let r := recoverRun fn cl
-      "handled=[" ++ " ".intercalate (r.handled.map rvalStr) ++ "] ran=" ++ showNats r.ran
+      "handled=[" ++ " ".intercalate (r.handled.map rvalStr) ++ "] ran=" ++ showNats r.ran ++
+        (if r.returns then "" else " goexit")
     | _, _ => "bad-op"
   | _ => "bad-op"
 
